@@ -89,8 +89,18 @@ def write_replay(prop, rec):
 
 
 def load_meta(prop):
+    """lean/theorems/<ID>.json, extended by every fragment lean/theorems/extra/<ID>-*.json (additional modules and
+    theorems contributed by later proof work: same keys `modules`, `theorems`, `stretch`, `trusted_base`, `assumptions`)"""
+    import glob
     p = os.path.join(core.LEAN, "theorems", "%s.json" % prop)
-    return json.load(open(p))
+    meta = json.load(open(p))
+    for q in sorted(glob.glob(os.path.join(core.LEAN, "theorems", "extra", "%s-*.json" % prop))):
+        frag = json.load(open(q))
+        for k in ("modules", "theorems", "stretch", "trusted_base", "assumptions", "driver_modules"):
+            for x in frag.get(k, []):
+                if x not in meta.setdefault(k, []):
+                    meta[k].append(x)
+    return meta
 
 
 def main(argv=None):
